@@ -804,6 +804,13 @@ impl Engine for CorruptSim {
         self.run_case_inner(case)
     }
 
+    fn event_log_is_replayable(&self, tier: Tier) -> bool {
+        // the thorough tier builds databases large enough that the per-step CPU-time limit of the
+        // build is sometimes reached, which changes what a run covers; every violation is still
+        // re-executed from its explicit case before it is reported
+        tier == Tier::Quick
+    }
+
     fn shrink(&self, case: &Value) -> Vec<Value> {
         // a seeded case (process-died / hang reported by the driver): make it explicit first
         if let Some(s) = case.get("seeded") {
